@@ -6,6 +6,7 @@
  *   X id=<n> win=<replay window> b12=<0|1> freq=<ssn_freq>
  *   F <piv>      fresh request whose partial IV is <piv> (client's sender sequence number is set to it first)
  *   N            fresh request with the client's next partial IV
+ *   h            fresh request with the client's next partial IV that the network holds back (sender-side histories; numbers beyond 2^32)
  *   H <piv>      fresh request with partial IV <piv> that the network holds back: captured, every copy lost; R <piv> is then its (late) first arrival
  *   R <piv>      replay the captured request that carried <piv>, byte for byte
  *   G <piv> <claimed>   forgery: captured request <piv> with the partial IV field rewritten to <claimed> and one
@@ -73,7 +74,9 @@ static void on_tx(int node, coap_session_t *s, const sim_dgram_t *dg, sim_verdic
   if (dg->len >= 4 && dg->data[1] >= 1 && dg->data[1] <= 31 && piv_of(dg->data, dg->len, &piv)) {
     int i;
     /* the client protected a request with this partial IV */
-    fprintf(sim_trace, "{\"e\":\"Piv\",\"piv\":%llu,\"sig\":%u}\n", (unsigned long long)piv, sim_sig(dg->data, dg->len));
+    /* TLC integers are 32 bits wide: the number itself where it fits (-1 otherwise), and always its two halves */
+    fprintf(sim_trace, "{\"e\":\"Piv\",\"piv\":%lld,\"ph\":%llu,\"pl\":%llu,\"sig\":%u}\n", piv < (1ull << 30) ? (long long)piv : -1ll,
+            (unsigned long long)(piv >> 20), (unsigned long long)(piv & 0xfffff), sim_sig(dg->data, dg->len));
     for (i = 0; i < ncap; i++)
       if (cap[i].piv == piv) return;
     if (ncap < MAXCAP) {
@@ -214,10 +217,10 @@ int main(int argc, char **argv) {
       fflush(sim_trace);
     } else if (!sctx || !csess) {
       continue;
-    } else if (line[0] == 'F' || line[0] == 'N' || line[0] == 'H') {
+    } else if (line[0] == 'F' || line[0] == 'N' || line[0] == 'H' || line[0] == 'h') {
       unsigned long long n = 0;
       uint64_t before;
-      holding = line[0] == 'H';
+      holding = line[0] == 'H' || line[0] == 'h';
       if (line[0] == 'F' || line[0] == 'H') {
         sscanf(line + 1, "%llu", &n);
         if (csess->recipient_ctx && csess->recipient_ctx->osc_ctx)
@@ -231,8 +234,8 @@ int main(int argc, char **argv) {
       before = csess->recipient_ctx ? csess->recipient_ctx->osc_ctx->sender_context->seq : 0;
       handled = 0; resp_count = 0; resp_code = -1;
       send_req();
-      fprintf(sim_trace, "{\"e\":\"Step\",\"kind\":\"%s\",\"n\":%llu,\"handled\":%d,\"resp\":%d,\"nresp\":%d}\n", holding ? "held" : "fresh",
-              (unsigned long long)before, handled, resp_code, resp_count);
+      fprintf(sim_trace, "{\"e\":\"Step\",\"kind\":\"%s\",\"n\":%lld,\"handled\":%d,\"resp\":%d,\"nresp\":%d}\n", holding ? "held" : "fresh",
+              before < (1ull << 30) ? (long long)before : -1ll, handled, resp_code, resp_count);
       holding = 0;
     } else if (line[0] == 'R' || line[0] == 'G') {
       unsigned long long n = 0, claimed = 0;
@@ -265,7 +268,7 @@ int main(int argc, char **argv) {
     } else if (line[0] == 'C') {
       uint64_t start = have_saved ? saved_seq : 0;
       free_client();
-      fprintf(sim_trace, "{\"e\":\"Restart\",\"restart_from\":%llu}\n", (unsigned long long)start);
+      fprintf(sim_trace, "{\"e\":\"Restart\",\"restart_from\":%lld}\n", start < (1ull << 30) ? (long long)start : -1ll);
       new_client(start);
     }
   }
